@@ -139,6 +139,8 @@ class Hooks:
             if hooks._depth == 0:      # not the cube of a mixture member inside a NautilusBound
                 hooks.handed_out += len(r)
                 hooks.proposals += len(r)
+                if hooks.budget is not None and hooks.proposals > hooks.budget:
+                    raise BudgetExceeded('proposal budget of %d exhausted' % hooks.budget)
             return r
         self._patch(UnitCube, 'sample', uc_sample)
 
@@ -240,13 +242,23 @@ def bound_geometry_digest(b):
     return h.hexdigest()
 
 
+def points_array(pts):
+    """posterior() points as a float array whatever the prior returns (array, dict of arrays, or - scalar mode
+    with a dict-returning prior function - an object array of dicts)."""
+    if isinstance(pts, dict):
+        return np.column_stack([np.asarray(pts[k], dtype=float) for k in sorted(pts)])
+    pts = np.asarray(pts)
+    if pts.dtype == object:
+        return np.array([[float(r[k]) for k in sorted(r)] for r in pts], dtype=float).reshape(len(pts), -1)
+    return pts
+
+
 def result_digest(s, prob=None):
     """SHA-256 over everything a user reads at the end: posterior arrays, log_z, n_eff, n_like."""
     out = s.posterior(return_blobs=s.blobs is not None)
     pts = out[0]
-    if isinstance(pts, dict):
-        pts = np.column_stack([np.asarray(pts[k]) for k in sorted(pts)])
-    arrays = [np.asarray(pts), out[1], out[2]] + ([out[3]] if len(out) > 3 else [])
+    pts = points_array(pts)
+    arrays = [pts, out[1], out[2]] + ([out[3]] if len(out) > 3 else [])
     lz = s.log_z
     scal = np.array([np.nan if lz is None else lz, s.n_eff, float(s.n_like)], dtype=float)
     return digest_arrays(*arrays, scal)
